@@ -73,3 +73,54 @@ Definition tables_agree : bool :=
   forallb (fun s => forallb (cell_matches s) all_revs) all_states
   && forallb (fun r => Nat.eqb (length (row r)) 10)
        [rUp; rDown; rOpen; rClose; rTOp; rTOm; rRCRp; rRCRm; rRCA; rRCN; rRTR; rRTA; rRUC; rRXJp; rRXJm; rRXR].
+
+(* ---------------------------------------------------------------------------------------------
+   Second transcription of the mapping packet -> event class (Model.classify is organised as a match
+   on the decoded code; this one is organised by code RANGE and as a lookup list indexed by code - 1,
+   following the packet-format sections 5.1-5.9 of RFC 1661, RFC 1332 section 3 / RFC 5072 section 3
+   for the NCPs, and section 4.3 "Events" for RXJ+/RXJ-).  Inputs are the facts the RFC text talks
+   about, not the automaton record. *)
+Inductive verdict := Discarded | Is (r : Row) (reply : bool (* for RXR: is an Echo-Reply due *)).
+
+Definition packet_event
+  (is_lcp : bool)        (* the control protocol is LCP *)
+  (opened : bool)        (* the automaton is in Opened *)
+  (code : Z)
+  (id_is_last_request : bool)  (* Identifier = that of the last Configure-Request sent (5.2-5.4) *)
+  (parses good : bool)   (* the option list parses; every option is acceptable as it stands *)
+  (has_magic : bool)     (* at least the 4-byte Magic-Number field follows the header (5.8) *)
+  : verdict :=
+  if ((1 <=? code) && (code <=? 7))%Z then
+    nth (Z.to_nat (code - 1))
+      [ (* 1 Configure-Request 5.1 *) if parses then (if good then Is rRCRp false else Is rRCRm false) else Discarded;
+        (* 2 Configure-Ack     5.2 *) if id_is_last_request then Is rRCA false else Discarded;
+        (* 3 Configure-Nak     5.3 *) if id_is_last_request then Is rRCN false else Discarded;
+        (* 4 Configure-Reject  5.4 *) if id_is_last_request then Is rRCN false else Discarded;
+        (* 5 Terminate-Request 5.5 *) Is rRTR false;
+        (* 6 Terminate-Ack     5.5 *) Is rRTA false;
+        (* 7 Code-Reject       5.6 *) Is rRXJm false   (* reading A: every rejected code is one we need *) ]
+      Discarded
+  else if ((8 <=? code) && (code <=? 11))%Z then
+    if is_lcp then
+      nth (Z.to_nat (code - 8))
+        [ (* 8  Protocol-Reject 5.7: only in Opened; of an NCP, never of LCP itself: RXJ+ (reading B) *)
+          if opened then Is rRXJp false else Discarded;
+          (* 9  Echo-Request    5.8 *) if has_magic then Is rRXR true else Discarded;
+          (* 10 Echo-Reply      5.8 *) Is rRXR false;
+          (* 11 Discard-Request 5.9 *) Is rRXR false ]
+        Discarded
+    else Is rRUC false      (* IPCP / IPv6CP: codes 1-7 only *)
+  else Is rRUC false.
+
+Definition verdict_of (o : option REv) : verdict :=
+  match o with
+  | None => Discarded
+  | Some RCRp => Is rRCRp false | Some RCRm => Is rRCRm false | Some RCA => Is rRCA false
+  | Some RCN => Is rRCN false | Some RTR => Is rRTR false | Some RTA => Is rRTA false
+  | Some RUC => Is rRUC false | Some RXJp => Is rRXJp false | Some RXJm => Is rRXJm false
+  | Some RXRq => Is rRXR true | Some RXRo => Is rRXR false
+  | Some RUp => Is rUp false | Some RDown => Is rDown false | Some ROpen => Is rOpen false
+  | Some RClose => Is rClose false | Some RTOp => Is rTOp false | Some RTOm => Is rTOm false
+  end.
+
+Definition is_malformed (k : Cls) : bool := match k with CMalformed => true | _ => false end.
